@@ -707,9 +707,16 @@ impl<'a> Codec<'a> {
                 }
                 Card::Many => {
                     let mut items = vec![];
-                    while let Ok((v, r)) = self.dec_elem(f, b, true) {
-                        items.push(v);
-                        b = r;
+                    loop {
+                        match self.dec_elem(f, b, true) {
+                            Ok((v, r)) => {
+                                items.push(v);
+                                b = r;
+                            }
+                            // non-digit nibbles have no meaning in any claim: never read as "the list ends here"
+                            Err(RefErr::BadDigit) => return Err(RefErr::BadDigit),
+                            Err(_) => break,
+                        }
                     }
                     if items.is_empty() {
                         break; // the list's first element is undecodable: the struct ends here
